@@ -71,6 +71,10 @@ pub struct SupplyTrace {
     /// unreadable link file is not an absent one)
     #[serde(default)]
     pub read_eio: Option<u64>,
+    /// odd repetitions deliver the same world to ANOTHER, fresh link directory (`links-b`) and verify it
+    /// there: where the files lie (and what lay there before) must not matter
+    #[serde(default)]
+    pub alt_dir_on_odd_reps: bool,
 }
 
 pub struct SupplyOutcome {
@@ -158,6 +162,10 @@ pub fn run_supply(t: &SupplyTrace, scratch: &Scratch) -> SupplyOutcome {
             std::fs::create_dir_all(real.join("stage")).expect("real/stage");
             let _ = std::os::unix::fs::symlink("real/stage", scratch.root.join("stage"));
             (real.join("links"), scratch.root.join("stage/../links"))
+        } else if t.alt_dir_on_odd_reps && rep % 2 == 1 {
+            let alt = scratch.root.join("links-b");
+            let _ = std::fs::remove_dir_all(&alt);
+            (alt.clone(), alt)
         } else if t.rel_link_dir || t.link_dir_style == 1 {
             (scratch.links(), std::path::PathBuf::from("../links"))
         } else {
